@@ -82,11 +82,17 @@ theorem datetime_tz_call_args :
     Gen.BoundedFuncs.datetimeTzCallArgs = ["timezone", "|", "tzinfo=timezone"] := rfl
 theorem datetime_zone_normalise :
     Gen.BoundedFuncs.datetimeZoneNormalise = "timezone = _normalize_timezone(timezone)" := rfl
-/-- naive parsed values get UTC attached (wall clock kept) in both branches of
-    `parse_datetimespec` -/
+/-- naive parsed values get UTC attached (wall clock kept): datetime objects in
+    `parse_datetimespec` itself, strings in the helper `_parse_datetime_str` it delegates to -/
 theorem parse_spec_tz_calls :
     Gen.BoundedFuncs.parseSpecTzCalls =
-      ["replace(tzinfo=timezone.utc)", "replace(tzinfo=timezone.utc)"] := rfl
+      ["replace(tzinfo=timezone.utc)", "_parse_datetime_str: replace(tzinfo=timezone.utc)"] := rfl
+theorem parse_spec_delegates :
+    Gen.BoundedFuncs.parseSpecDelegates = ["_parse_datetime_str(d)"] := rfl
+/-- only the parsing of *strings* is cached (885750c): datetime objects, `now` and `today` are
+    evaluated afresh, so an equal-instant object with another offset can no longer be served (D39) -/
+theorem cached_parsers :
+    Gen.BoundedFuncs.cachedParsers = ["_parse_date_str(d: str)", "_parse_datetime_str(d: str)"] := rfl
 
 /-! #### datetime_between / date_between -/
 
@@ -96,13 +102,23 @@ theorem equalCond_eq (e s : Int) : Gen.BoundedFuncs.equalCond e s = decide (e = 
 theorem equal_return :
     Gen.BoundedFuncs.equalReturn = "start_date.astimezone(timezone) if timezone else start_date" := rfl
 
-/-- the model's order check and equal-bounds check are the pinned comparisons -/
+/-- the clamp (919a3ea): the Faker result is `max`ed with the start expressed in the result's zone -/
+theorem clamp_value :
+    Gen.BoundedFuncs.clampValue =
+      "self._faker_for_dates.date_time_between(start_date, end_date, tzinfo=timezone)" := rfl
+theorem clamp_earliest :
+    Gen.BoundedFuncs.clampEarliest =
+      ["start_date.astimezone(timezone)", "(start_date - start_date.utcoffset()).replace(tzinfo=None)"] := rfl
+theorem clamp_return : Gen.BoundedFuncs.clampReturn = "max(value, earliest)" := rfl
+
+/-- the model's order check and equal-bounds check are the pinned comparisons; the draw is clamped
+    from below to the start -/
 theorem datetimeBetweenWith_uses_pin (call : TzCall) (c : Clock) (s e : DTSpec) (d : Nat) :
     datetimeBetweenWith call c s e d =
       if Gen.BoundedFuncs.orderCond (normalise call c e) (normalise call c s) = true then .orderError
       else if Gen.BoundedFuncs.equalCond (normalise call c e) (normalise call c s) = true then
         .value (normalise call c s)
-      else fakerBetween (normalise call c s) (normalise call c e) d := by
+      else clampLow (normalise call c s) (fakerBetween (normalise call c s) (normalise call c e) d) := by
   simp [datetimeBetweenWith, Gen.BoundedFuncs.orderCond, Gen.BoundedFuncs.equalCond]
 
 theorem datetime_between_body :
@@ -111,7 +127,9 @@ theorem datetime_between_body :
        "timezone = _normalize_timezone(timezone)",
        "if end_date < start_date: ;     raise DataGenError('End date is before start date')",
        "if end_date == start_date: ;     return start_date.astimezone(timezone) if timezone else start_date",
-       "return self._faker_for_dates.date_time_between(start_date, end_date, tzinfo=timezone)"] := rfl
+       "value = self._faker_for_dates.date_time_between(start_date, end_date, tzinfo=timezone)",
+       "if timezone: ;     earliest = start_date.astimezone(timezone) ; else: ;     earliest = (start_date - start_date.utcoffset()).replace(tzinfo=None)",
+       "return max(value, earliest)"] := rfl
 
 theorem date_dispatch_guard :
     Gen.BoundedFuncs.dateDispatchGuard =
